@@ -164,6 +164,9 @@ def run_property(mod, tier, seed, replay=None):
                 ia, ib = where[a], where[b]
                 cov["twin_pairs"] += 1
                 for prof, ans in (("checked", checked), ("wrapping", release)):
+                    if not ans[ia].startswith("ok") and ans[ib].startswith("ok"):
+                        cov["twin_variants_refused"] = cov.get("twin_variants_refused", 0) + 1      # a refusal is not a wrong answer
+                        continue
                     if ans[ia] != ans[ib] and "@model" not in (ans[ia], ans[ib]):
                         pv.append((ia, "%s build: %s -- %s answers %s..., the reference call %s answers %s..." % (
                             prof, what, a.replace("@impl ", "").split()[0], ans[ia][:60], b.replace("@impl ", "").split()[0], ans[ib][:60])))
